@@ -551,15 +551,22 @@ def cmd_seeded(ids, confirm):
                 e.pop("GOFLAGS", None)
                 b = subprocess.run([sys.executable, os.path.join(VERIF, "run.py"), "baseline"], env=e, stdout=subprocess.PIPE, stderr=subprocess.STDOUT, text=True)
                 line += " suite=%s" % ("pass" if b.returncode == 0 else "FAIL(" + b.stdout.strip().splitlines()[-1][:80] + ")")
-                demo = meta.get("demo", "demo_test.go")
-                ddir = os.path.join(base, meta.get("demo_dir", "go/mcap"))
-                shutil.copy(os.path.join(d, demo), os.path.join(ddir, "zz_seed_demo_test.go"))
-                r1 = subprocess.run(["go", "test", "-count=1", "-vet=off", "-run", meta.get("demo_run", "Seed"), "."], cwd=ddir, env=e, stdout=subprocess.PIPE, stderr=subprocess.STDOUT, text=True)
-                subprocess.run(["patch", "-p1", "-s", "-R", "-i", os.path.join(d, "patch.diff")], cwd=base)
-                r2 = subprocess.run(["go", "test", "-count=1", "-vet=off", "-run", meta.get("demo_run", "Seed"), "."], cwd=ddir, env=e, stdout=subprocess.PIPE, stderr=subprocess.STDOUT, text=True)
-                subprocess.run(["patch", "-p1", "-s", "-i", os.path.join(d, "patch.diff")], cwd=base)
-                os.remove(os.path.join(ddir, "zz_seed_demo_test.go"))
-                line += " demo(with)=%s demo(without)=%s" % ("fails" if r1.returncode != 0 else "PASSES?!", "passes" if r2.returncode == 0 else "FAILS?!")
+                demo = meta.get("demo", "demo_test.go") or ""
+                ddir = os.path.join(base, meta.get("demo_dir") or "go/mcap")
+                if not demo.endswith("_test.go"):
+                    print(line + " demo=(script, confirmed in the agent's worktree: %s)" % meta.get("confirmed_demo_sh", "?"), end=" ")
+                    line = ""
+                    demo = ""
+                if demo:
+                    shutil.copy(os.path.join(d, demo), os.path.join(ddir, "zz_seed_demo_test.go"))
+                    tags = ["-tags", meta["demo_tags"]] if meta.get("demo_tags") else []
+                    gt = ["go", "test", "-count=1", "-vet=off"] + tags + ["-run", meta.get("demo_run") or "Seed", "."]
+                    r1 = subprocess.run(gt, cwd=ddir, env=e, stdout=subprocess.PIPE, stderr=subprocess.STDOUT, text=True)
+                    subprocess.run(["patch", "-p1", "-s", "-R", "-i", os.path.join(d, "patch.diff")], cwd=base)
+                    r2 = subprocess.run(gt, cwd=ddir, env=e, stdout=subprocess.PIPE, stderr=subprocess.STDOUT, text=True)
+                    subprocess.run(["patch", "-p1", "-s", "-i", os.path.join(d, "patch.diff")], cwd=base)
+                    os.remove(os.path.join(ddir, "zz_seed_demo_test.go"))
+                    line += " demo(with)=%s demo(without)=%s" % ("fails" if r1.returncode != 0 else "PASSES?!", "passes" if r2.returncode == 0 else "FAILS?!")
             e2 = dict(os.environ)
             e2.update({"VERIF_REPO": base, "VERIF_NO_EVIDENCE": "1"})
             verdicts = []
